@@ -74,6 +74,15 @@ def check_parse(case) -> Result:
     except PathSyntaxError:
         ref, feats, accepted = None, set(), False
     got = exc = None
+    # call order alternates (by a hash of the string, so it is a pure function of the case): a result
+    # must not depend on which form of the same string was parsed earlier in the process
+    compact_first = (sum(map(ord, d)) + len(d)) % 2 == 1
+    pre = None
+    if compact_first:
+        try:
+            pre = list(parse_svg_path(d, exploded=False))
+        except Exception:
+            pre = None
     try:
         got = list(parse_svg_path(d, exploded=True))
     except ValueError:
@@ -108,6 +117,11 @@ def check_parse(case) -> Result:
                             flat.append((cur, tuple(a[i : i + n])))
                             cur = {"M": "L", "m": "l"}.get(cur, cur)
                     m2 = _same(ref, flat)
+                    nletters = sum(1 for ch in d if ch.lower() in NARGS)
+                    if not m2 and len(g2) != nletters:
+                        m2 = f"non-exploded form has {len(g2)} commands for {nletters} command letters"
+                    if not m2 and pre is not None and pre != g2:
+                        m2 = f"two non-exploded parses of the same string differ: {pre!r} vs {g2!r}"
                     if m2:
                         r.bad("exploded-mismatch", f"parse_svg_path({d!r}, exploded=False) -> {g2!r} does not denote {ref!r}: {m2}")
     return r
